@@ -30,6 +30,8 @@ pub(crate) struct IcmpForwarder {
 struct ReplyWaiter {
     original_peer: IpAddr,
     waker_tx: mpsc::Sender<(IpAddr, icmp_utils::Message)>,
+    /// The key of the entry made for this request in [`Listeners::deadlines`]
+    deadline: Instant,
 }
 
 #[derive(Default)]
@@ -217,6 +219,16 @@ impl IcmpForwarder {
             for deadline in expired {
                 if let Some(requests) = listeners.deadlines.remove(&deadline) {
                     for request in requests {
+                        // The deadline of an answered request stays behind. If the same request
+                        // has been sent again since, the waiter found here is the later one
+                        // and has a deadline of its own.
+                        let is_due = listeners
+                            .reply_waiters
+                            .get(&request)
+                            .is_some_and(|waiter| waiter.deadline <= deadline);
+                        if !is_due {
+                            continue;
+                        }
                         if let Some(waiter) = listeners.reply_waiters.remove(&request) {
                             debug!(
                                 "Request expired: peer={} request={:?}",
@@ -352,22 +364,24 @@ impl datagram_pipe::Sink for IcmpSink {
 
         let serialized = datagram.message.serialize();
 
+        let deadline = Instant::now()
+            + forwarder_shared
+                .core_settings
+                .icmp
+                .as_ref()
+                .unwrap()
+                .request_timeout;
+
         // Register the waiter before sending: the reply may arrive (and be looked up by
         // `IcmpForwarder::listen`) before this task runs again after `send_to`
         {
-            let deadline = Instant::now()
-                + forwarder_shared
-                    .core_settings
-                    .icmp
-                    .as_ref()
-                    .unwrap()
-                    .request_timeout;
             let mut listeners = forwarder_shared.listeners.lock().unwrap();
             listeners.reply_waiters.insert(
                 echo.clone(),
                 ReplyWaiter {
                     original_peer: datagram.meta.peer,
                     waker_tx: self.tx.clone(),
+                    deadline,
                 },
             );
 
@@ -400,12 +414,14 @@ impl datagram_pipe::Sink for IcmpSink {
                 echo.data.len(),
                 e
             );
-            forwarder_shared
-                .listeners
-                .lock()
-                .unwrap()
+            let mut listeners = forwarder_shared.listeners.lock().unwrap();
+            if listeners
                 .reply_waiters
-                .remove(echo);
+                .get(echo)
+                .is_some_and(|waiter| waiter.deadline == deadline)
+            {
+                listeners.reply_waiters.remove(echo);
+            }
             return Ok(datagram_pipe::SendStatus::Dropped);
         }
 
